@@ -7,6 +7,7 @@ use vcore::findings::Findings;
 pub mod c01;
 pub mod c03;
 pub mod c04;
+pub mod c05;
 pub mod c07;
 pub mod c09;
 pub mod c11;
